@@ -5,7 +5,7 @@
    CNAME/other-data exclusivity.  Proofs: Proofs/Txn*.v. *)
 From DV Require Import Base.Prelude Model.NameM Model.TxnM.
 From DV Require Import Proofs.NameValid Proofs.TxnName Proofs.TxnStore Proofs.TxnLow Proofs.TxnSim Proofs.TxnThm
-                       Proofs.TxnIrrel Proofs.TxnSpec Proofs.TxnInv Proofs.TxnItems Proofs.TxnAbs Proofs.TxnHeap Proofs.TxnCount Proofs.TxnObj Proofs.TxnObjR.
+                       Proofs.TxnIrrel Proofs.TxnSpec Proofs.TxnInv Proofs.TxnItems Proofs.TxnAbs Proofs.TxnHeap Proofs.TxnCount Proofs.TxnObj Proofs.TxnObjR Proofs.TxnBtree.
 Open Scope Z_scope.
 
 (* Any history of transactions - every operation and argument form, manual commit/rollback or with-block,
@@ -182,6 +182,15 @@ Theorem readonly_changes_nothing :
   t_ro t = true -> step st c o z t = Ok (x, z', t') -> z' = z /\ t_st t' = t_st t /\ t_ro t' = true.
 Proof. exact @readonly_never_changes. Qed.
 Print Assumptions readonly_changes_nothing.
+
+(* "identically for ... B-tree zones", for the overrides themselves: dns.btreezone.WritableVersion (node
+   flags, delegation index, update_glue_flag re-creating the nodes beneath a cut) as a store gives the same
+   result for every call of every history as the base WritableVersion, and the same content under every key *)
+Theorem btree_overrides_leave_content_alone :
+  forall c h bz z, Forall spec_valid h -> RPb bz z ->
+  Forall2 (ROut RPb) (btree_hist c h bz) (impl_hist c h z).
+Proof. exact btree_refines_value. Qed.
+Print Assumptions btree_overrides_leave_content_alone.
 
 (* ---------------------------------------------------------------- name form / configuration *)
 (* Two histories that differ only in how owner names are spelled (relative or absolute, letter case:
@@ -495,3 +504,16 @@ Proof. split; [vm_compute; reflexivity|]. eexists. vm_compute. reflexivity. Qed.
 
 Example ex_obj_related : RPo ([], [], []) [].
 Proof. apply RPo_empty. Qed.
+
+Example ex_btree_related : RPb ([], []) [].
+Proof. apply RPb_empty. Qed.
+
+(* NS at `w` (a cut), then a record beneath it: flags DELEGATION (2) and GLUE (4); the origin has ORIGIN (1) *)
+Example ex_btree_flags :
+  let c := mkCfg 2 true ex_origin in
+  let h := [mkSpec 0 1 [OAdd [AName []; ARds (mkRds 1 6 0 300 [(1, 1)])];
+                        OAdd [AName ex_www; ARds (mkRds 1 2 0 300 [(1, 0)])];
+                        OAdd [AName ([[120]] ++ ex_www); ARds ex_a]] None] in
+  map (fun x => map (fun kn => (fst kn, bn_flags (snd kn))) (fst (snd x))) (btree_hist c h ([], [])) =
+  [[([], 1); (ex_www, 2); ([[120]] ++ ex_www, 4)]].
+Proof. vm_compute. reflexivity. Qed.
